@@ -5,6 +5,7 @@ import (
 	"strings"
 	"testing"
 
+	yaml "gopkg.in/yaml.v2"
 	"pgregory.net/rapid"
 
 	"verifharness/hx"
@@ -272,6 +273,32 @@ var c08Named = hx.Define("c08.named-key-types", func(c *c08NamedCase, s *hx.Sub)
 	return nil
 })
 
+// (4b) a key of another kind, or one that only becomes a key by losing its value in a
+// conversion to the map's key type, is a missing key; a number is a key by its value
+
+var c08KeyKinds = hx.Define("c08.key-kinds", func(c *c08NamedCase, s *hx.Sub) *hx.Violation {
+	b := map[string]any{
+		"sm": map[string]any{"A": "letter", "1": "digit", "true": "t"}, "ss": map[string]string{"A": "letter"},
+		"im": map[int]any{1: "one", 65: "sixtyfive"}, "u8": map[uint8]any{1: "one"}, "i8": map[int8]string{-1: "m1"},
+		"fm": map[float64]any{1.5: "x"}, "am": map[any]any{"A": "letter", 1: "one"},
+		"ms": yaml.MapSlice{{Key: "size", Value: nil}, {Key: "b", Value: 1}}, "pm": map[string]any{"size": nil, "b": 1},
+		"i8v": int8(1), "u64v": uint64(1), "f19": 1.9, "i65": 65, "u257": uint16(257), "neg": -255, "t": true,
+	}
+	src := "{{ " + c.Expr + " }}"
+	o := hx.Render(src, b)
+	if o.Panic != nil {
+		return hx.V("panic@"+o.Panic.Site, "%s: %v", src, o.Panic)
+	}
+	if !o.OK() || o.Out != c.Want {
+		return hx.V("c08:key-kind:"+strings.SplitN(strings.SplitN(c.Expr, "[", 2)[0], " ", 2)[0], "%s with sm = {A: letter, \"1\": digit, \"true\": t} (string keys; ss likewise with string values), im = {1: one, 65: sixtyfive} (int keys), u8 = {1: one} (uint8 keys), i8 = {-1: m1} (int8 keys), fm = {1.5: x} (float keys), am = {A: letter, 1: one} (keys of any type), ms/pm an ordered/a plain map {size: nil, b: 1}: rendered %v, expected %q (a missing key yields nil; a value of one kind never equals one of another; integers of every width are keys by value)", src, o, c.Want)
+	}
+	s.NT()
+	if s.WantSample() {
+		s.Sample(map[string]any{"template": src, "output": o.Out})
+	}
+	return nil
+})
+
 // (5) unknown filter / too many arguments are errors
 
 type c08ArityCase struct {
@@ -451,6 +478,21 @@ func TestC08(t *testing.T) {
 		if env.Mine(i) {
 			c := c
 			nkc.Run(&c)
+		}
+	}
+
+	kk := c08KeyKinds.On(col, "exhaustive over a list: maps with string, int, uint8, int8, float and interface key types and an ordered map, indexed by literals and variables of another kind (int for a string key, string/float/bool for an int key), by numbers the key type cannot hold (257 and -255 for uint8), by the same number in another width, and by a present key; a.size with a size entry that is nil; the same keys through contains. Oracle: the entry for a key of equal value, nil otherwise. Distinct by construction", true)
+	for i, c := range []c08NamedCase{
+		{"sm[65]", ""}, {"sm[i65]", ""}, {"sm[1]", ""}, {"sm[t]", ""}, {"sm[true]", ""}, {`sm["A"]`, "letter"}, {`sm["1"]`, "digit"}, {"ss[65]", ""}, {"ss.A", "letter"},
+		{"im[1.9]", ""}, {"im[f19]", ""}, {`im["1"]`, ""}, {"im[1]", "one"}, {"im[i8v]", "one"}, {"im[u64v]", "one"}, {"im[i65]", "sixtyfive"}, {"im[2]", ""},
+		{"u8[257]", ""}, {"u8[u257]", ""}, {"u8[-255]", ""}, {"u8[neg]", ""}, {"u8[1]", "one"}, {"u8[i8v]", "one"}, {"i8[255]", ""}, {"i8[-1]", "m1"},
+		{"fm[1.5]", "x"}, {"fm[1]", ""}, {`fm["1.5"]`, ""}, {"am[65]", ""}, {"am[1]", "one"}, {`am["A"]`, "letter"}, {"am.A", "letter"}, {"am[i8v]", "one"},
+		{"ms.size", ""}, {"pm.size", ""}, {`ms["size"]`, ""}, {"ms.b", "1"}, {"pm.b", "1"},
+		{"sm contains 65", "false"}, {`sm contains "A"`, "true"}, {"im contains 1.9", "false"}, {"im contains 1", "true"}, {"im contains i8v", "true"}, {"u8 contains 257", "false"}, {"u8 contains 1", "true"}, {`im contains "1"`, "false"}, {"am contains i8v", "true"}, {"am contains 65", "false"},
+	} {
+		if env.Mine(i) {
+			c := c
+			kk.Run(&c)
 		}
 	}
 
